@@ -8,10 +8,12 @@
 // maps and arrays, with and without timestamps inside) while the other fields hold one typed default
 // each. Every payload is ingested through {JSON event, JSON batch, msgpack event, msgpack batch} of the
 // real incoming router and takes each of the three ways out of the node:
-//   none  – no trace ID: straight to the upstream transmission,
-//   peer  – trace owned by the other node: the peer transmission,
-//   local – trace owned by this node: a REAL InMemCollector (fix/nodecoll) whose sampler keeps everything,
-//           real sendTraces, upstream transmission;
+//
+//	none  – no trace ID: straight to the upstream transmission,
+//	peer  – trace owned by the other node: the peer transmission,
+//	local – trace owned by this node: a REAL InMemCollector (fix/nodecoll) whose sampler keeps everything,
+//	        real sendTraces, upstream transmission;
+//
 // with the sampling-key field configured for the dataset (so Refinery memoises it) or not.
 // Oracle: the payload decoded (fixture's own msgpack decoder) from the bytes the real DirectTransmission
 // put on the in-memory network has every client key exactly once with a value equal in kind class and exact
